@@ -59,7 +59,7 @@ def check(ctx):
         for _ in range(1500 if ctx.thorough else 250):
             p = cyc.gen_cyclic(ctx.rng)[0]
             tx.append(p["mods"][p["main"]])
-        tx += list(cyc.CORPUS) + list(c01.ARITY)
+        tx += list(cyc.CORPUS) + list(c01.ARITY) + c01.concat_nests() + texts.block_comment_texts(3)
         # ... and accepted programs with one kind error injected (the checks after inference are the only guard of some casts)
         for t in valid[: (900 if ctx.thorough else 120)]:
             tx.append(c01.mutate_illtyped(ctx.rng, t))
